@@ -289,12 +289,15 @@ func (e *Engine) callFn(st *State, x *ssa.Call, fn *ssa.Function, bind []Value, 
 		case "vpStrSharesBytes":
 			set(ts.Bool(false)) // strings are value copies in the encoding; unsafe views are tracked separately
 			return true
-		case "vpLastAllocSize":
-			if e.lastAlloc == nil {
+		case "vpMaxAllocSize":
+			if st.maxAlloc == nil {
 				set(ts.BVInt(64, 0))
 			} else {
-				set(e.lastAlloc)
+				set(st.maxAlloc)
 			}
+			return true
+		case "vpFixCRC", "vpIdentityBytes":
+			set(args[0])
 			return true
 		}
 		if m, ok := harnessModels[short]; ok {
